@@ -181,7 +181,12 @@ template <class Solver, class Prm> result run_solver(const problem &pb, const Pr
         size_t it; double res;
         std::tie(it, res) = solve(pb.rhs, x);
         r.it = (long long)it; r.res.pod(res); r.x.vec(x.data(), x.size());
+        // apply() must not depend on what the output vector holds: two applications into vectors
+        // pre-filled with different junk (the second one into the reused, now non-zero, vector)
         amgcl::backend::numa_vector<double> f(pb.rhs), y(pb.rhs.size());
+        for (size_t i = 0; i < pb.rhs.size(); ++i) y[i] = 1.0 + 0.25 * (double)(i % 7);
+        solve.precond().apply(f, y);
+        r.px.vec(y.data(), y.size());
         solve.precond().apply(f, y);
         r.px.vec(y.data(), y.size());
         r.describe(solve);
